@@ -151,7 +151,9 @@ func (f *Formatter) formatComment(comments ast.Comments, sep string, level int) 
 
 	buf.Reset()
 	for i := range comments {
-		if comments[i].PreviousEmptyLines > 0 {
+		// An empty line is kept only in front of a comment which is printed on its own line,
+		// in the middle of a line it would break the line
+		if comments[i].PreviousEmptyLines > 0 && strings.Contains(sep, "\n") {
 			buf.WriteString("\n")
 		}
 		// #FASTLY macros are not indented
